@@ -133,7 +133,7 @@ def expected_line(case):
     if t[0] == "P":
         key = unhex(t[1]); msg = unhex(t[2]); v = "%016x" % sip24(key, msg)
         d = "%016x" % sip24(bytes(range(16)), msg)
-        s = "P plain=%s sse2=%s disp=%s def=%s" % (v, v, v, ",".join([d] * 5))
+        s = "P plain=%s sse2=%s disp=%s ref=%s def=%s" % (v, v, v, v, ",".join([d] * 5))
         if len(msg) in (1, 2, 3, 4, 8, 12, 16, 32):
             s += " tpl=" + d
         return s
